@@ -110,12 +110,25 @@ func decodeFrame(frame []byte) string {
 		_ = mux.Unbind(h)
 		_ = mux.DefaultRoute(h)
 	}
-	vc := gldap.NewVerifConn(1, frame, mux)
+	// one frame in four is not the first of its connection: a well-formed bind and a search are read before it on the
+	// same conn (what a connection did before must not change how the next frame is judged)
+	in, reqID := frame, 1
+	if crc32.ChecksumIEEE(frame)&24 == 8 {
+		in = append(append([]byte{}, decodePreamble...), frame...)
+	}
+	vc := gldap.NewVerifConn(1, in, mux)
 	if crc32.ChecksumIEEE(frame)&6 == 2 {
 		// a logger at trace level (writing to nowhere): the debug paths of the read and write side run too
-		vc = gldap.NewVerifConnWithLogger(1, frame, mux, hclog.New(&hclog.LoggerOptions{Level: hclog.Trace, Output: io.Discard}))
+		vc = gldap.NewVerifConnWithLogger(1, in, mux, hclog.New(&hclog.LoggerOptions{Level: hclog.Trace, Output: io.Discard}))
 	}
-	r, err := vc.ReadRequest(1)
+	if len(in) != len(frame) {
+		for ; reqID <= 2; reqID++ {
+			if _, err := vc.ReadRequest(reqID); err != nil {
+				return "preamble-err"
+			}
+		}
+	}
+	r, err := vc.ReadRequest(reqID)
 	if err != nil {
 		return "err"
 	}
@@ -124,7 +137,7 @@ func decodeFrame(frame []byte) string {
 			// serveRequests calls the unbind route itself
 			return "ok " + renderMessage(r.VerifMessage())
 		}
-		w, err := vc.Writer(1)
+		w, err := vc.Writer(reqID)
 		if err != nil {
 			return "err"
 		}
@@ -136,6 +149,20 @@ func decodeFrame(frame []byte) string {
 	}
 	return "ok " + renderMessage(r.VerifMessage())
 }
+
+// decodePreamble: a simple bind and a search, as a client would send them at the start of a connection.
+var decodePreamble = func() []byte {
+	var out []byte
+	for _, r := range []Req{{Kind: "bind", ID: 1, DN: "cn=admin,dc=example,dc=org", Pass: "secret"},
+		{Kind: "search", ID: 2, DN: "dc=example,dc=org", Scope: 2, Filter: "(objectClass=*)"}} {
+		n, err := r.Node()
+		if err != nil {
+			panic(err)
+		}
+		out = append(out, n.Ser()...)
+	}
+	return out
+}()
 
 // wrapOctet is the BER octet-string wrapping ConvertString inverts.
 func wrapOctet(v string) string {
